@@ -444,7 +444,10 @@ func Run[C any](t *testing.T, prop string, gen func(*rapid.T) C, run func(c C, x
 			rec.stats.Violations = []ViolationRecord{{Replay: lastFail, Msg: firstLine(err.Error())}}
 			rec.mu.Unlock()
 			rec.flush()
-			rt.Fatalf("%v\nhistory:\n%s", err, strings.Join(x.log, "\n"))
+			// the history goes to the log, not into the error text: rapid compares
+			// error texts of two runs of one case and only shrinks when they agree
+			rt.Logf("history of the failing case:\n%s", strings.Join(x.log, "\n"))
+			rt.Fatalf("%v", err)
 		}
 	})
 	rec.stats.Completed = !t.Failed()
